@@ -462,6 +462,11 @@ impl Dedup {
         Self { window: 0, next: 0 }
     }
 
+    /// Whether no packet number has been recorded yet
+    pub(super) fn is_unused(&self) -> bool {
+        self.next == 0
+    }
+
     /// Highest packet number authenticated.
     fn highest(&self) -> u64 {
         self.next - 1
